@@ -194,6 +194,7 @@ class Executor:
     def _reset(self):
         self.events = []
         self.facts = []
+        self.established = []  # conditions a summarised validator guarantees on its returning path (per path)
         self.loops = []
         self.depth = 0
         self.arr_counter = 0
@@ -359,9 +360,27 @@ class Executor:
         self.register_atom(nf, shape)
         return Num(nf, shape, dtype, pytype)
 
+    def _entailed(self, cond: Cond) -> bool:
+        """the affine facts of the path (branches taken, facts a summarised validator established) imply the condition"""
+        from .affine import entails, facts_of_path, from_cond
+
+        goal = from_cond(cond, True)
+        if not goal:
+            return False
+        known = facts_of_path(list(self.facts) + [(c_, True) for c_ in getattr(self, "established", [])])
+        try:
+            return all(entails(known, g) for g in goal)
+        except Exception:
+            return False
+
     def decide(self, cond: Cond, node) -> bool:
         if cond.is_const():
             return cond.value()
+        for c in getattr(self, "established", []):
+            if c.key == cond.key:
+                return True
+            if c.key == cond.neg().key:
+                return False
         # consult facts of the current path
         for c, v in self.facts:
             if c.key == cond.key:
@@ -726,6 +745,8 @@ class Executor:
 
     def st_Assert(self, st, frame):
         c = self.truth(self.ev(st.test, frame), st)
+        if not c.is_const() and self._entailed(c):
+            return  # the assertion re-states what the path has already established (a guard passed, a validated length)
         if not self.decide(c, st):
             self.emit("raise", st, exc="AssertionError", args=None)
             raise RaiseSignal("AssertionError", None, st, frame.func)
@@ -1866,6 +1887,12 @@ class Executor:
             return False
         if isinstance(a, ObjV) and isinstance(b, ObjV):
             return a is b
+        if isinstance(a, ExtV) and isinstance(b, ExtV):
+            # two references into libraries: the same dotted name is the same object; a builtin type is no other object;
+            # two different library names may still be aliases of one object (numpy.double / numpy.float64): undecided
+            if a.dotted == b.dotted:
+                return True
+            return False if (a.dotted.startswith("builtins.") or b.dotted.startswith("builtins.")) else None
         if isinstance(a, Num) and isinstance(b, Num) and a.cond is not None and b.cond is not None:
             if a.cond.is_const() and b.cond.is_const():
                 return a.cond.value() == b.cond.value()
